@@ -176,7 +176,7 @@ def parent_main(args: argparse.Namespace) -> int:
         if got < minimum:
             problems.append(f"monitor '{name}' observed {got} < required {minimum}")
 
-    replay_dir = os.path.join(VERIF, "evidence", "replay")
+    replay_dir = os.path.join(os.environ.get("VERIF_EVIDENCE_DIR") or os.path.join(VERIF, "evidence"), "replay")
     os.makedirs(replay_dir, exist_ok=True)
     replay_paths = []
     for i, v in enumerate(unknown[:5]):
